@@ -764,7 +764,18 @@ def b_set(I, args, kw):
     return out
 
 
+def b_vars(I, args, kw):
+    """vars(<opaque object / module>): an opaque mapping owned by the environment"""
+    v = args[0] if args else None
+    if isinstance(v, Env):
+        if "vars" not in v.data:
+            v.data["vars"] = Env(f"vars({v.path})")
+        return v.data["vars"]
+    raise Unsupported("vars() of a non-opaque value")
+
+
 BUILTINS = {
+    "vars": b_vars,
     "len": b_len, "isinstance": b_isinstance, "int": b_int, "bool": b_bool, "bytes": b_bytes,
     "bytearray": b_bytearray, "str": b_str, "range": b_range, "enumerate": b_enumerate, "zip": b_zip,
     "sorted": b_sorted, "min": b_minmax(True), "max": b_minmax(False), "hasattr": b_hasattr,
